@@ -23,7 +23,17 @@ pub fn panic_class(prefix: &str, msg: &str) -> String {
 
 pub fn draw_job(rng: &mut Rng, c: &Corpus) -> Job {
     let k = rng.below(100);
-    let ridx = rng.below(c.roots.len());
+    // half of the draws favour roots that assemble (so that the success side
+    // — writes, output faults — is exercised as much as the failure side)
+    let ridx = {
+        let r = rng.below(c.roots.len());
+        if rng.chance(1, 2) {
+            let okish: Vec<usize> = (0..c.roots.len()).filter(|i| !c.roots[*i].1.starts_with("err")).collect();
+            if okish.is_empty() { r } else { okish[rng.below(okish.len())] }
+        } else {
+            r
+        }
+    };
     let mut job = corpus::corpus_job(c, ridx);
     let (ii, root) = &c.roots[ridx];
     let img = &c.images[*ii];
@@ -307,3 +317,248 @@ pub fn classify(r: &Replay) -> Vec<Violation> {
 
 #[allow(dead_code)]
 fn _unused(_: Spec) {}
+
+// ===================================================================== Tier B
+
+use crate::procsim::{proc_replay, ProcFault, ProcPlan, ProcRecord};
+
+const READ_KINDS: &[&str] = &["probe-enoent", "open-eacces", "open-emfile", "read-eio"];
+const WRITE_KINDS: &[&str] = &["create-eacces", "create-erofs", "write-enospc", "write-eio", "write-short-enospc"];
+const MASKED_KINDS: &[&str] = &["eintr-read", "eintr-write", "short-read", "short-write", "stat-fd-fail"];
+
+fn is_read_kind(k: &str) -> bool {
+    READ_KINDS.contains(&k)
+}
+
+pub fn proc_panic_class(stderr: &[u8]) -> String {
+    let t = String::from_utf8_lossy(stderr);
+    for line in t.lines() {
+        if let Some(i) = line.find("panicked at ") {
+            let rest = &line[i + "panicked at ".len()..];
+            let loc: String = rest.trim_end_matches(':').to_string();
+            // "src/file.rs:LINE:COL" -> keep file:line
+            let parts: Vec<&str> = loc.split(':').collect();
+            if parts.len() >= 2 {
+                return format!("I1-panic@{}:{}", parts[0], parts[1]);
+            }
+            return format!("I1-panic@{}", loc);
+        }
+    }
+    "I1-panic@?".to_string()
+}
+
+pub fn check_proc(job: &Job, faults: &[ProcFault], rec: &ProcRecord, baseline: Option<&ProcRecord>) -> Vec<Violation> {
+    let mut v = Vec::new();
+    if rec.skipped.is_some() {
+        return v;
+    }
+    let ctx = format!("argv={:?} faults={:?}", job.argv, faults);
+    let errs = rec.error_lines();
+    let failed_write = rec.events.iter().any(|e| (e.op == "create" || e.op == "write") && e.ret < 0 && e.errno != libc::EINTR);
+    let fired_read = rec.any_fired(is_read_kind);
+    let masked = !faults.is_empty() && faults.iter().all(|f| MASKED_KINDS.contains(&f.kind.as_str()));
+    if let Some(sig) = rec.signal {
+        v.push(Violation::new(&format!("I1-abort:signal{}", sig), format!("process killed by signal {} | {}", sig, ctx)));
+        return v;
+    }
+    match rec.exit {
+        Some(0) => {
+            if errs > 0 {
+                v.push(Violation::new(&format!("I2-success-with-error-diagnostic:{}", msg_class(&first_error(&rec.stderr))), format!("exit 0 but {} error diagnostic(s): {} | {}", errs, first_error(&rec.stderr), ctx)));
+            }
+            if fired_read {
+                v.push(Violation::new("I4-read-fault-not-fatal", format!("a permanent read fault fired and the process still exited 0 | {}", ctx)));
+            }
+            if failed_write {
+                v.push(Violation::new("I2-success-with-failed-write", format!("exit 0 although an output could not be written | {}", ctx)));
+            }
+            if let Some(spec) = &job.spec {
+                let expected = if spec.help || spec.version { 0 } else { spec.groups.iter().filter(|g| !g.print).count() };
+                let creates = rec.events.iter().filter(|e| e.op == "create" && e.ret >= 0).count();
+                if creates != expected {
+                    v.push(Violation::new(if creates < expected { "I2-success-missing-output" } else { "I2-success-extra-output" }, format!("exit 0, {} file group(s) requested, {} file(s) created | {}", expected, creates, ctx)));
+                }
+            }
+        }
+        Some(1) => {
+            if errs == 0 {
+                v.push(Violation::new("I2-failure-without-diagnostic", format!("exit 1 but no top-level error diagnostic; stderr={:?} | {}", String::from_utf8_lossy(&rec.stderr), ctx)));
+            }
+            if !failed_write && !rec.changed.is_empty() {
+                v.push(Violation::new("I2-failure-wrote-output", format!("exit 1 ({}) but files were created or changed: {:?} | {}", first_error(&rec.stderr), rec.changed.keys().collect::<Vec<_>>(), ctx)));
+            }
+        }
+        Some(101) => {
+            v.push(Violation::new(&proc_panic_class(&rec.stderr), format!("process panicked (exit 101): {} | {}", String::from_utf8_lossy(&rec.stderr).lines().next().unwrap_or(""), ctx)));
+        }
+        other => {
+            v.push(Violation::new(&format!("I1-exit-status:{:?}", other), format!("exit status is neither 0 nor 1 | {}", ctx)));
+        }
+    }
+    if masked {
+        if let Some(b) = baseline {
+            if (rec.exit, &rec.stdout, &rec.stderr, &rec.changed) != (b.exit, &b.stdout, &b.stderr, &b.changed) {
+                v.push(Violation::new(
+                    &format!("I5-masked-kind-visible:{}", faults[0].kind),
+                    format!("under {} (legal kernel behaviour) the run differs from the fault-free run: exit {:?} vs {:?}, changed files {:?} vs {:?} | {}", faults[0].kind, rec.exit, b.exit, rec.changed.keys().collect::<Vec<_>>(), b.changed.keys().collect::<Vec<_>>(), ctx),
+                ));
+            }
+        }
+    }
+    v
+}
+
+fn proc_touched(rec: &ProcRecord) -> (BTreeSet<String>, BTreeSet<String>) {
+    let mut ins = BTreeSet::new();
+    let mut outs = BTreeSet::new();
+    for e in &rec.events {
+        if e.resolved.starts_with('!') || e.resolved.is_empty() {
+            continue;
+        }
+        match e.op.as_str() {
+            "probe" => {
+                if e.ret >= 0 {
+                    ins.insert(e.resolved.clone());
+                }
+            }
+            "open" | "read" => {
+                ins.insert(e.resolved.clone());
+            }
+            "create" | "write" => {
+                outs.insert(e.resolved.clone());
+            }
+            _ => {}
+        }
+    }
+    // a path that is both written and read (explicit -o over an input)
+    // stays in both sets
+    (ins, outs)
+}
+
+pub fn run_proc(ctx: &mut Ctx, c: &Corpus, verif: &str) -> Vec<Replay> {
+    let mut rng = Rng::new(ctx.run_seed);
+    let mut jrng = rng.fork("job");
+    let job = draw_job(&mut jrng, c);
+    let keys = crate::plan::keys_to_hex(&rng.fork("keys").bytes16());
+    let mut out = Vec::new();
+    let jd = hex128(job.digest());
+    ctx.stats.inc("jobs");
+    let base_plan = ProcPlan { job: job.clone(), faults: vec![], keys: keys.clone(), clock: None, scratch_tag: String::new() };
+    let base = ctx.exec_proc(&base_plan, "C03", verif);
+    if let Some(why) = &base.skipped {
+        ctx.stats.inc(&format!("skipped:{}", why));
+        return out;
+    }
+    ctx.stats.inc("evaluations");
+    ctx.stats.inc("baseline_runs");
+    ctx.stats.inc(match base.exit {
+        Some(0) => "baseline_success",
+        Some(1) => "baseline_failure",
+        _ => "baseline_other",
+    });
+    if base.events.iter().any(|e| e.op == "read" && e.ret > 0) {
+        ctx.stats.note("nontrivial", format!("pb:{}", &jd[..16]));
+    }
+    for v in check_proc(&job, &[], &base, None) {
+        out.push(proc_replay("C03", ctx.seed, ctx.run, v, base_plan.clone()));
+    }
+
+    // model validation: the same job through Tier A must agree on exit
+    // status, diagnostics and written files; a difference is a harness error
+    // (the simulated disk misrepresents the real one), never a verdict
+    if base.signal.is_none() && matches!(base.exit, Some(0) | Some(1)) {
+        let plan = SimPlan::single(job.clone(), vec![], &crate::plan::keys_from_hex(&keys), false, false);
+        let res = crate::plan::run_plan(&plan);
+        let a = &res.runs[0].record;
+        let a_exit = match a.outcome {
+            Outcome::Ok => Some(0),
+            Outcome::Err => Some(1),
+            Outcome::Panic(_) => Some(101),
+        };
+        let mut a_files: std::collections::BTreeMap<String, String> = std::collections::BTreeMap::new();
+        for w in &a.writes {
+            a_files.insert(w.resolved.clone(), crate::disk::b64::to_text(&w.data));
+        }
+        // unchanged content is not a change on the real disk
+        a_files.retain(|p, d| match job.disk.nodes.get(p) {
+            Some(crate::disk::Node::File(old)) => crate::disk::b64::to_text(old) != *d,
+            _ => true,
+        });
+        ctx.stats.inc("model_validation_runs");
+        if a_exit != base.exit || a.stderr != base.stderr || a_files != base.changed {
+            ctx.stats.inc("model_divergence");
+            ctx.stats.note(
+                "harness_errors",
+                format!(
+                    "model divergence on job {} argv={:?}: lib exit {:?} vs proc {:?}; stderr equal={}; files lib {:?} vs proc {:?}; lib stderr={:?} proc stderr={:?}",
+                    job.name,
+                    job.argv,
+                    a_exit,
+                    base.exit,
+                    a.stderr == base.stderr,
+                    a_files.keys().collect::<Vec<_>>(),
+                    base.changed.keys().collect::<Vec<_>>(),
+                    crate::orch::truncate(&String::from_utf8_lossy(&a.stderr), 300),
+                    crate::orch::truncate(&String::from_utf8_lossy(&base.stderr), 300)
+                ),
+            );
+        }
+    }
+    if base.signal.is_some() || !matches!(base.exit, Some(0) | Some(1)) {
+        return out;
+    }
+
+    let (ins, outs) = proc_touched(&base);
+    let mut space: Vec<ProcFault> = Vec::new();
+    for p in &ins {
+        for k in READ_KINDS {
+            space.push(ProcFault { kind: k.to_string(), path: p.clone() });
+        }
+    }
+    for q in &outs {
+        for k in WRITE_KINDS {
+            space.push(ProcFault { kind: k.to_string(), path: q.clone() });
+        }
+    }
+    for k in MASKED_KINDS {
+        space.push(ProcFault { kind: k.to_string(), path: "*".to_string() });
+    }
+    ctx.stats.add("fault_space_total", space.len() as u64);
+    for f in space {
+        let plan = ProcPlan { job: job.clone(), faults: vec![f.clone()], keys: keys.clone(), clock: None, scratch_tag: String::new() };
+        let rec = ctx.exec_proc(&plan, "C03", verif);
+        ctx.stats.inc("evaluations");
+        ctx.stats.inc(&format!("fault_configured_{}", f.kind));
+        let fired: u64 = rec.fired.iter().map(|x| x.2).sum();
+        if fired > 0 {
+            ctx.stats.inc(&format!("fault_fired_{}", f.kind));
+            ctx.stats.note("nontrivial", format!("pf:{}:{}:{}", &jd[..16], f.path, f.kind));
+        } else {
+            ctx.stats.inc(&format!("fault_not_fired_{}", f.kind));
+        }
+        if ctx.stats.samples.len() < 2 && fired > 0 {
+            ctx.stats.sample(serde_json::json!({"tier": "proc", "job": job.name, "argv": job.argv, "fault": format!("{} on {}", f.kind, f.path), "fired": fired, "exit": rec.exit, "first_error": first_error(&rec.stderr), "changed_files": rec.changed.keys().collect::<Vec<_>>() }), 4);
+        }
+        for v in check_proc(&job, &[f.clone()], &rec, Some(&base)) {
+            out.push(proc_replay("C03", ctx.seed, ctx.run, v, plan.clone()));
+        }
+    }
+    out
+}
+
+pub fn classify_proc(r: &Replay, verif: &str) -> Vec<Violation> {
+    let plan = match &r.proc {
+        Some(p) => p,
+        None => return vec![],
+    };
+    let masked = !plan.faults.is_empty() && plan.faults.iter().all(|f| MASKED_KINDS.contains(&f.kind.as_str()));
+    let base = if masked {
+        let mut bp = plan.clone();
+        bp.faults.clear();
+        Some(crate::procsim::run_proc(&bp, verif))
+    } else {
+        None
+    };
+    let rec = crate::procsim::run_proc(plan, verif);
+    check_proc(&plan.job, &plan.faults, &rec, base.as_ref())
+}
